@@ -27,6 +27,11 @@ def solver_check(fn):
             R, tech = holder["R"], holder.get("tech", "abstract interpretation")
         R.add(SA.fault_obs())
         R.add(grid_obs(SA))
+        # the solver rules are decided for one solve in a fresh process; they hold for every call only if a solve
+        # cannot observe an earlier one (module-level state on the solve path: R-STATE / R-MEMO, shared with C12)
+        import props_state as ps
+
+        R.add(ps.solve_state_obligations(P)[0])
         R.add(path_uniformity(SA))
         R.analysed["paths"] = SA.nruns
         return R, tech
